@@ -31,7 +31,7 @@ def uint_oracle(req, impl):
     empty = lo > hi if incl else lo >= hi
     via = d["via"]
     if empty:
-        want = "err:EmptyRange" if via in ("try", "sampler", "utrait") else "panic"
+        want = "err:EmptyRange" if via in ("try", "sampler", "utrait", "serde", "serdesampler") else "panic"
         if impl != want:
             return "empty range %s must give %s, got %s" % ("inclusive" if incl else "exclusive", want, impl[:40])
         return None
